@@ -302,9 +302,14 @@ def run_c16(ctx):
 # ---- C17 -------------------------------------------------------------------------------------
 def run_c17(ctx):
     n = _tier(ctx, 24, 300)
-    jobs = pc.corpus_jobs(['S2_*.scn', 'S5_*.scn']) + pc.generated_jobs('C17', ctx['seed'], n, ['values'], types=[2, 3, 4, 5, 6])
-    out = pc.run_scenarios('C17', ctx, jobs, [oracles.c17_companions, oracles.panics], nontrivial=pc.received_kinds)
-    return pc.make_result('C17', ctx, out, 'frames of histories writing Transform / Visibility / PointLight / SpotLight / DirectionalLight on synchronized entities from owners and other peers, with further writes at every frame offset; companions checked after every frame; non-trivial = distinct (scenario, receiver, kind, key) received')
+    gj, metas = _jobs_from(scen.values_clean, 'C17', ctx['seed'], n, family=[2, 3, 4, 5, 6])
+    jobs = pc.corpus_jobs(['S2_*.scn', 'S5_*.scn']) + gj + pc.generated_jobs('C17f', ctx['seed'], n // 3, ['values'], types=[2, 3, 4, 5, 6])
+
+    def conv(tr, origin):
+        # convergence of the replicated values is demanded only of the drain-separated histories
+        return oracles.c02_values(tr, origin) if not origin.get('name', '').startswith('C17f') else []
+    out = pc.run_scenarios('C17', ctx, jobs, [oracles.c17_companions, oracles.panics, conv], nontrivial=pc.received_kinds)
+    return pc.make_result('C17', ctx, out, 'frames of histories writing Transform / Visibility / PointLight / SpotLight / DirectionalLight on synchronized entities from owners and other peers (drain-separated writers: values must converge; free-form: companions only), with further writes at every frame offset; companions checked after every frame; non-trivial = distinct (scenario, receiver, kind, key) received')
 
 
 RUNNERS = {'C01': run_c01, 'C02': run_c02, 'C03': run_c03, 'C04': run_c04, 'C05': run_c05, 'C06': run_c06,
